@@ -62,18 +62,20 @@ fn drain_calls(log: &std::rc::Rc<std::cell::RefCell<Log>>) -> Vec<CallRec> {
 fn cmp_calls(code: &str, step: usize, predicted: &[&J], observed: &[CallRec], out: &mut Vec<Mismatch>) -> bool {
     let obs_j: Vec<J> = observed.iter().map(call_to_spec).collect();
     if predicted.len() != observed.len() {
-        out.push(Mismatch { code: format!("{code}.count"), step, expected: json!(predicted), observed: json!(obs_j) });
+        out.push(Mismatch { code: code.to_string(), step, expected: json!(predicted), observed: json!(obs_j) });
         return false;
     }
     for (p, o) in predicted.iter().zip(observed) {
+        // the constructor's call is C02's business whatever is wrong with it
+        let ctor = code == "proto.ctor";
         if p["kind"].as_str().unwrap() != o.kind {
-            out.push(Mismatch { code: "call.kind".into(), step, expected: json!(p), observed: call_to_spec(o) });
+            out.push(Mismatch { code: if ctor { "proto.ctor".into() } else { "call.kind".into() }, step, expected: json!(p), observed: call_to_spec(o) });
             return false;
         }
         let pi = sv_list(&p["inputs"]);
         let oi: Vec<(String, Val)> = o.inputs.iter().map(|(s, v, _)| (s.clone(), *v)).collect();
         if pi != oi {
-            out.push(Mismatch { code: "row.inputs".into(), step, expected: json!(p), observed: call_to_spec(o) });
+            out.push(Mismatch { code: if ctor { "proto.ctor".into() } else { "row.inputs".into() }, step, expected: json!(p), observed: call_to_spec(o) });
             return false;
         }
     }
@@ -365,12 +367,43 @@ pub fn replay_lex_file(path: &str) -> J {
                 samples.push(json!({"text": s, "tokens": want}));
             }
         }
+        // C20, differential on the real lexer: layout-only rewritings of this string (more blank space, a comment - with
+        // and without text - appended to every line, blank lines inserted) leave the real token kinds unchanged
+        {
+            let kinds = |t: &str| -> Option<Vec<String>> {
+                guarded(|| digital_test_runner::verif::tokens(t, false)).ok().flatten().map(|v| {
+                    let mut k: Vec<String> = vec![];
+                    for (kind, _, _) in v {
+                        if kind == "Eol" && k.last().map(|l| l == "Eol").unwrap_or(false) {
+                            continue;
+                        }
+                        k.push(kind);
+                    }
+                    k
+                })
+            };
+            let base = kinds(&s);
+            let widen: String = s.chars().map(|c| if c == ' ' || c == '\t' || c == '\r' { format!("{c}\t ") } else { c.to_string() }).collect();
+            let mut variants = vec![("blank space", widen), ("blank lines", s.replace('\n', "\n \n"))];
+            if !s.contains('#') {
+                variants.push(("comments", format!("{} #$", s.replace('\n', "#l!\n"))));
+                variants.push(("bare comments", format!("{}#", s.replace('\n', " #\n"))));
+            }
+            for (what, v) in variants {
+                if kinds(&v) != base && mismatches.len() < 300 {
+                    mismatches.push(json!({"behaviour": i + 1, "code": "layout.tokens", "step": 0, "text": s, "expected": json!({"rewriting": what, "kinds": base}), "observed": json!({"text": v, "kinds": kinds(&v)}), "line": line}));
+                    break;
+                }
+            }
+        }
         match guarded(|| digital_test_runner::verif::tokens(&s, false)) {
             Err(p) => mismatches.push(json!({"behaviour": i + 1, "code": "panic", "step": 0, "text": s, "expected": json!(want), "observed": p, "line": line})),
             Ok(got) => {
                 let got = got.unwrap_or_default();
                 if got != want {
-                    mismatches.push(json!({"behaviour": i + 1, "code": "lex.tokens", "step": 0, "text": s, "expected": json!(want), "observed": json!(got), "line": line}));
+                    // same kinds in the same order but different byte spans: only locations are affected (C09), not what is parsed
+                    let kinds_same = got.len() == want.len() && got.iter().zip(&want).all(|(a, b)| a.0 == b.0);
+                    mismatches.push(json!({"behaviour": i + 1, "code": if kinds_same { "lex.spans" } else { "lex.tokens" }, "step": 0, "text": s, "expected": json!(want), "observed": json!(got), "line": line}));
                 }
             }
         }
@@ -546,6 +579,7 @@ pub fn replay_sched_file(path: &str) -> J {
         }
         let mut its: Vec<_> = drivers.iter_mut().map(|d| guarded(|| tc.try_iter(d)).ok().and_then(|r| r.ok())).collect();
         let mut pos = vec![0usize; its.len()];
+        let mut seen: Vec<Vec<J>> = vec![vec![]; its.len()];
         let sched: Vec<usize> = b["sched"].as_array().unwrap().iter().map(|x| x.as_u64().unwrap() as usize - 1).collect();
         if samples.len() < 2 && sched.len() >= 6 {
             samples.push(json!({"text": printed.text, "schedule": b["sched"]}));
@@ -566,6 +600,7 @@ pub fn replay_sched_file(path: &str) -> J {
                 Ok(Some(Err(IterationError::Runtime(_)))) => json!({"k": "err", "class": "runtime"}),
                 Ok(Some(Ok(row))) => row_to_spec(row),
             };
+            seen[j].push(obs.clone());
             if obs["k"] != want["k"] {
                 bad = Some((if obs["k"] == "panic" { "panic" } else { "sched.item" }, step, want.clone(), obs));
                 break;
@@ -585,7 +620,40 @@ pub fn replay_sched_file(path: &str) -> J {
                 }
             }
         }
-        if let Some((code, step, exp, obs)) = bad {
+        drop(its);
+        // differential (C15 proper): each iterator, stepped alone against a driver giving the same answers, yields the same items
+        // as it did while the others were stepped in between
+        let mut differ = None;
+        for (j, sc) in scripts.iter().enumerate() {
+            let script = answers(sc, &table);
+            let policy: Policy = Box::new(move |idx, _k, _i| script.get(idx).cloned().unwrap_or(Answer::Err(999_999)));
+            let (core, _log) = Core::new(table.clone(), policy);
+            let mut d = DrvW(core);
+            if let Ok(Ok(mut it)) = guarded(|| tc.try_iter(&mut d)) {
+                for (step, was) in seen[j].iter().enumerate() {
+                    let got = guarded(|| it.next());
+                    let obs = match &got {
+                        Err(p) => json!({"k": "panic", "msg": p}),
+                        Ok(None) => json!({"k": "none"}),
+                        Ok(Some(Err(IterationError::Driver(_)))) => json!({"k": "err", "class": "driver"}),
+                        Ok(Some(Err(IterationError::Runtime(_)))) => json!({"k": "err", "class": "runtime"}),
+                        Ok(Some(Ok(row))) => row_to_spec(row),
+                    };
+                    if &obs != was {
+                        differ = Some((j, step, was.clone(), obs));
+                        break;
+                    }
+                }
+            }
+            if differ.is_some() {
+                break;
+            }
+        }
+        if let Some((j, step, was, obs)) = differ {
+            if mismatches.len() < 200 {
+                mismatches.push(json!({"behaviour": i + 1, "code": "sched.differ", "step": step, "text": printed.text, "expected": json!({"iterator": j + 1, "alone": obs}), "observed": json!({"interleaved": was}), "line": line}));
+            }
+        } else if let Some((code, step, exp, obs)) = bad {
             if mismatches.len() < 200 {
                 mismatches.push(json!({"behaviour": i + 1, "code": code, "step": step, "text": printed.text, "expected": exp, "observed": obs, "line": line}));
             }
